@@ -288,8 +288,42 @@ impl EmbeddingValidator {
             });
         }
 
-        // Check that positions are sorted and within bounds
+        self.validate_structure(embedding, field)
+    }
+
+    /// Check the representation invariant that the consumers of a sparse vector index by: a
+    /// value for every position, positions strictly increasing and inside the dimension, and
+    /// a dimension that may be densified. A vector deserialised from the wire bypasses the
+    /// constructors, so nothing else guarantees it.
+    ///
+    /// # Errors
+    /// Returns an error if the vector is not well-formed.
+    pub fn validate_structure(&self, embedding: &SparseVector, field: &str) -> Result<()> {
+        let dim = embedding.dimension();
+
+        if dim > self.max_dimension {
+            return Err(ChainError::InvalidEmbedding {
+                dimension: dim,
+                reason: format!(
+                    "{field}: dimension {dim} exceeds maximum {}",
+                    self.max_dimension
+                ),
+            });
+        }
+
         let positions = embedding.positions();
+        if positions.len() != embedding.values().len() {
+            return Err(ChainError::InvalidEmbedding {
+                dimension: dim,
+                reason: format!(
+                    "{field}: {} positions for {} values",
+                    positions.len(),
+                    embedding.values().len()
+                ),
+            });
+        }
+
+        // Check that positions are sorted and within bounds
         for (i, &pos) in positions.iter().enumerate() {
             if pos as usize >= dim {
                 return Err(ChainError::InvalidEmbedding {
